@@ -241,11 +241,11 @@ Qed.
 Lemma derive_framed r :
   framing_ok r = true -> has_header h_upgrade (wire_headers r) = false ->
   exists hi, derive (wire_headers r) = POk hi /\ hi_upgrade hi = false /\
-             hi_chunked hi = writer_chunking_enabled (c_chunked r).
+             hi_chunked hi = req_chunking r.
 Proof.
   intros Hf Hu. unfold framing_ok in Hf. set (hs := wire_headers r) in *.
   unfold derive. rewrite (get_header_none _ _ Hu), andb_false_r.
-  destruct (writer_chunking_enabled (c_chunked r)).
+  destruct (req_chunking r).
   - destruct (get_header h_transfer_encoding hs) as [te|] eqn:Et; [|discriminate].
     apply andb_true_iff in Hf as [H1 H2]. apply list_eqb_eq in H1. subst te.
     change (is_chunked_te t_chunked) with (@POk bool true). apply negb_true_iff in H2. rewrite H2.
@@ -263,8 +263,8 @@ Lemma parse_request_head o (r : creq) lim :
 Proof.
   unfold valid. intros Hv Hsafe.
   repeat (apply andb_true_iff in Hv as [Hv ?]).
-  rename H into Hlim, H0 into Hframe, H1 into Hhost, H2 into Hws, H3 into Hupg, H4 into Hdup, H5 into Hnames,
-         H6 into Hne, H7 into Hforb, H8 into Hasc, H9 into Hslash, H10 into Hconn, H11 into Hmtok.
+  rename H into Hlim, H0 into Hlen, H1 into Hframe, H2 into Hhost, H3 into Hws, H4 into Hupg, H5 into Hdup, H6 into Hnames,
+         H7 into Hne, H8 into Hforb, H9 into Hasc, H10 into Hslash, H11 into Hconn, H12 into Hmtok.
   assert (Hmne : c_method r <> []) by (destruct (c_method r); [discriminate|discriminate]).
   apply negb_true_iff in Hupg, Hws, Hforb, Hconn.
   rewrite (u8_status_line r Hmtok Hasc).
